@@ -13,8 +13,6 @@ import t4eval
 import geomcheck
 
 NAME_RE = re.compile(r'^m([^_]+)(?:_(.*))?$')
-ZERO_FRACTION_RE = re.compile(r'^[-+]?\d*\.0*$')
-E0_RE = re.compile(r'^[-+]?\d*\.\d*[eEdD+-]0+$')
 EXP_RE = re.compile(r'^([-+]?\d*\.\d*?)(0*)(?:[eEdD]([-+]?\d+)|([-+]\d+))$')
 
 
@@ -47,11 +45,6 @@ def parse_name(name):
 
 # ---- narrow classes of the known defects ----------------------------------
 
-def cls_zero_fraction(a, b):
-    return (a != b and ZERO_FRACTION_RE.match(a) and ZERO_FRACTION_RE.match(b)
-            and a.rstrip('0') == b.rstrip('0'))
-
-
 def cls_zeros_before_exponent(a, b):
     ma, mb = EXP_RE.match(a), EXP_RE.match(b)
     if not ma or not mb:
@@ -60,10 +53,6 @@ def cls_zeros_before_exponent(a, b):
     expo_b = mb.group(3) if mb.group(3) is not None else mb.group(4)
     return (ma.group(1) == mb.group(1) and ma.group(2) != mb.group(2)
             and expo_a == expo_b)
-
-
-def cls_e0(spelling):
-    return bool(E0_RE.match(spelling))
 
 
 def cls_leading_zero(token):
@@ -79,12 +68,7 @@ def classify_split(spellings):
     from t4_geom_convert.Kernel.Utils import normalize_float
     pairs = [(a, b) for a, b in pairs
              if normalize_float(a) != normalize_float(b)]
-    if pairs and all(cls_zero_fraction(a, b) for a, b in pairs):
-        return 'density_all_zero_fraction'
-    if pairs and all(cls_zeros_before_exponent(a, b) or cls_zero_fraction(a, b)
-                     for a, b in pairs):
-        if any(cls_zero_fraction(a, b) for a, b in pairs):
-            return None
+    if pairs and all(cls_zeros_before_exponent(a, b) for a, b in pairs):
         return 'trailing_zeros_before_exponent'
     return None
 
@@ -202,8 +186,7 @@ def check_file(deck, t4, rng, n_points=200, compositions=True):
         except ValueError:
             got = None
         if got is None or abs(got - want) > 1e-12 * abs(want):
-            cls = 'normalize_float_e0' if cls_e0(leaf['rho']) else None
-            failures.append({'kind': 'wrong-density', 'cls': cls,
+            failures.append({'kind': 'wrong-density', 'cls': None,
                              'why': where, 'point': list(p)})
             continue
         by_value.setdefault(name, set()).add((mat_num, want))
